@@ -274,9 +274,9 @@ def check(case):
         o.label("class:extreme-magnitude")
         return o.ok(nontrivial=False)
     # ---- clause: follow-up operations ----------------------------------------------------------------------
-    Sfollow = max(1.0, lib.scale_of([[lib.xy(s.start), lib.xy(s.end)] for s in path]))
-    # (the requested error is relative to the size of what is measured: an arc can be far larger than the points it joins -
-    # radii of 1e36 between points 30 apart - and an absolute error below the resolution of such a length never converges)
+    Sfollow = max(1.0, lib.scale_of([[lib.xy(s.start), lib.xy(s.end)] + [lib.xy(getattr(s, n, None)) for n in ("control", "control1", "control2")] for s in path]))
+    # (the requested error is relative to the size of what is measured: a curve or an arc can be far larger than the points it joins -
+    # control points at 1e24, radii of 1e36 between points 30 apart - and an absolute error below the resolution of such a length never converges)
     for s in path:
         if lib.kind_of(s) == "A":
             for r in (s.rx, s.ry):
